@@ -1,6 +1,7 @@
 //! Correspondence harness: runs the real tarpc code on scripted operation sequences and prints
 //! canonical observations as Coq terms (one case per line) for the model to be compared with.
 mod c13;
+mod c16;
 mod c17;
 mod c19;
 mod c20;
@@ -69,6 +70,21 @@ fn main() {
             for _ in 0..count {
                 writeln!(w, "{}", cli::show(&cli::gen(&mut rng, bias))).unwrap();
             }
+        }
+        ("cliw", "gen") => {
+            let mut rng = Rng::new(seed);
+            let mut w = open_out(&out);
+            for _ in 0..count {
+                writeln!(w, "{}", cli::show(&cli::gen_wake(&mut rng))).unwrap();
+            }
+        }
+        ("cliw", "run") => {
+            let cases: Vec<Case> = read_lines(&input)
+                .iter()
+                .filter_map(|l| cli::parse(l))
+                .map(|s| cli::to_case_wake(&s))
+                .collect();
+            write_cases(&out.expect("--out"), &cases);
         }
         ("cli", "run") => {
             let cases: Vec<Case> = read_lines(&input)
